@@ -19,7 +19,8 @@ CLAIM = dict(
          'uniform grids with spacings h(1 + e 2^-K), K = 12..30, in one or both directions, and exactly uniform ones, whose trapezium / square_trapezium '
          'values are recomputed exactly by TLC as split numbers H + L/2^F; file round trips into meshes that hold other data on another grid with equally '
          'many, fewer and more nodes, checked through every accessor; non-uniform grids (4..12 nodes, 1-D and both directions of 2-D) whose cell widths have '
-         'uniform-looking summary statistics (first = last = mean, first = last, first = mean, palindromic, permuted multiset, two alternating widths, one odd cell).',
+         'uniform-looking summary statistics (first = last = mean, first = last, first = mean, palindromic, permuted multiset, two alternating widths, one odd cell); grids with WIDE cells (16, 64, 1024, 2^20) next to narrow ones (2^-9..1) in every order: interpolation on both '
+         'sides of every node at 2^-12..2^-19 and 1e-6..4e-6 (exact, node-relative, inside narrow cells; units inside wide cells), quadratures exact as split numbers.',
     note='Exact (decided by TLC on integers/rationals): all access paths, interpolation at nodes / mid-cells / dyadic points, 1-D and 2-D '
          'trapezium, square_trapezium. Harness measurements judged by guards in Trace_Mesh.tla: interpolation at arbitrary interior points '
          '(>= 1e-6 from every node; double-double reference, guard 4 units of 8 eps max|data|, a-priori bound 2.5 eps max|data|) and the '
@@ -29,7 +30,7 @@ CLAIM = dict(
     design='4 (C19)')
 
 WRITES = ('set', 'iset', 'isetv', 'assign', 'apply')
-OPS1 = ['set', 'isetv', 'iset', 'get', 'index', 'index_all', 'coord', 'nodes', 'nnodes', 'nvars', 'interp', 'interp_any', 'trap', 'roundtrip']
+OPS1 = ['set', 'isetv', 'iset', 'get', 'index', 'index_all', 'coord', 'nodes', 'nnodes', 'nvars', 'interp', 'interp_off', 'interp_any', 'trap', 'roundtrip']
 OPS2 = ['set', 'isetv', 'iset', 'assign', 'apply', 'get', 'index', 'index_all', 'coord', 'xnodes', 'ynodes', 'nnodes', 'nvars',
         'xsec_x', 'xsec_y', 'vam', 'trap', 'sq_trap']
 
@@ -137,7 +138,7 @@ def _count_families(ctx, cases_path, events_path):
     """the special input families must be present: large coordinates, near-node points on both sides, nearly uniform grids, round trips into
     meshes with equally many / fewer / more nodes"""
     cases = {c['cid']: c for c in vlib.read_ndjson(cases_path)}
-    n = dict(near_dyadic=0, near_1e6=0, large_offset_interp=0, fine_trap1=0, fine_trap2=0, fine_sq=0, fine_both=0, rt_same=0, rt_fewer=0, rt_more=0, two_node=0, stat_trap1=0, stat_trap2=0, stat_sq=0, stat_flm_both=0)
+    n = dict(near_dyadic=0, near_1e6=0, large_offset_interp=0, fine_trap1=0, fine_trap2=0, fine_sq=0, fine_both=0, rt_same=0, rt_fewer=0, rt_more=0, two_node=0, stat_trap1=0, stat_trap2=0, stat_sq=0, stat_flm_both=0, wide_exact=0, wide_units=0, wide_trap1=0, wide_trap2=0, wide_sq=0)
     for e in vlib.read_ndjson(events_path):
         c = cases[e['cid']]
         if e['op'] in ('interp', 'interp_any') and 'near' in e:
@@ -154,6 +155,10 @@ def _count_families(ctx, cases_path, events_path):
             n['stat_trap1' if e['kind'] == 'm1' else ('stat_sq' if e['op'] == 'sq_trap' else 'stat_trap2')] += 1
             if e['kind'] == 'm2' and c.get('fam') == 0:         # first = last = mean cell width in x AND y, interior non-uniform
                 n['stat_flm_both'] += 1
+        if c.get('family') == 'wide' and e['op'] in ('interp_off', 'interp_any'):
+            n['wide_exact' if e['op'] == 'interp_off' else 'wide_units'] += 1
+        if c.get('family') == 'wideq' and e['op'] in ('trap', 'sq_trap'):
+            n['wide_trap1' if e['kind'] == 'm1' else ('wide_sq' if e['op'] == 'sq_trap' else 'wide_trap2')] += 1
         if e['op'] in ('trap', 'interp') and len(c['xn']) == 2:
             n['two_node'] += 1
     if min(n.values()) == 0:
